@@ -6,7 +6,7 @@ From Coq Require Import List NArith ZArith Bool.
 Import ListNotations.
 Require Import Verif.Lib.Wire Verif.Gen.Facts_C10 Verif.Model.C10 Verif.Proofs.C10 Verif.Proofs.C10_sat
         Verif.Proofs.C10_on Verif.Proofs.C10_codec Verif.Proofs.C10_real
-        Verif.Proofs.C10_gen Verif.Proofs.C10_gen2 Verif.Proofs.C10_altered.
+        Verif.Proofs.C10_gen Verif.Proofs.C10_gen2 Verif.Proofs.C10_altered Verif.Proofs.C10_factory.
 
 (* constants read from session.py: the three comparisons are `>`, the limit is 4064, the payload
    is (accessed, created, state), each wrapped dict method wraps the dict method of its own name *)
@@ -284,3 +284,94 @@ Theorem C10_altered_same_decoding_rejected : forall O o s c now, rt_b64 O -> can
   init O o (Some c) now = IOk (fresh_sess now).
 Proof. exact altered_same_decoding_rejected. Qed.
 Print Assumptions C10_altered_same_decoding_rejected.
+
+(* ================================================================== the factory layer (round 5)
+   regenerated from session.py on this run: _CanonicalBase64Serializer.loads / dumps, SignedCookieSessionFactory,
+   the class-level option conversion of CookieSession *)
+Theorem C10_generated_canon_loads_is_model : forall O inner c, gen_canon_loads O inner c = canon_loads O inner c.
+Proof. exact gen_canon_loads_is_model. Qed.
+Print Assumptions C10_generated_canon_loads_is_model.
+
+Theorem C10_generated_signed_factory_is_model : forall a, gen_signed_factory a = signed_factory a.
+Proof. exact gen_signed_factory_is_model. Qed.
+Print Assumptions C10_generated_signed_factory_is_model.
+
+Theorem C10_generated_config_is_model : forall b, gen_config b = config b.
+Proof. exact gen_config_is_model. Qed.
+Print Assumptions C10_generated_config_is_model.
+
+(* the factory wraps the signed serializer: only the canonical text of a cookie is accepted *)
+Theorem C10_canonical_check_on : canonical_check = true.
+Proof. exact canonical_check_on. Qed.
+Print Assumptions C10_canonical_check_on.
+
+(* the key the cookies are signed with: salt ++ secret in latin-1 or else UTF-8 (absent / empty salt = nothing), not swapped,
+   not replaced by a default *)
+Theorem C10_factory_key : forall a, ser_key (b_ser (gen_signed_factory a)) = salted_key (fa_salt a) (fa_secret a).
+Proof. exact factory_key. Qed.
+Print Assumptions C10_factory_key.
+
+(* the serializer object the session class receives IS the loads / dumps the session theorems speak about *)
+Theorem C10_factory_loads_is_model : forall O a c,
+  ser_loads O (b_ser (gen_signed_factory a)) c = loads O (salted_key (fa_salt a) (fa_secret a)) c.
+Proof. exact factory_loads_is_model. Qed.
+Print Assumptions C10_factory_loads_is_model.
+
+Theorem C10_factory_dumps_is_model : forall O a p,
+  ser_dumps O (b_ser (gen_signed_factory a)) p = signed_dumps O (salted_key (fa_salt a) (fa_secret a)) p.
+Proof. exact factory_dumps_is_model. Qed.
+Print Assumptions C10_factory_dumps_is_model.
+
+Theorem C10_factory_serializer_roundtrip : forall O a p, rt_b64 O -> rt_ser O -> mac_len O ->
+  ser_loads O (b_ser (gen_signed_factory a)) (ser_dumps O (b_ser (gen_signed_factory a)) p) = Some p.
+Proof. exact factory_serializer_roundtrip. Qed.
+Print Assumptions C10_factory_serializer_roundtrip.
+
+(* options are converted ONCE, at configuration time, as documented: None stays None, everything else through
+   int(); the factory call raises exactly when an int() does; set_on_exception counts by truth value *)
+Theorem C10_factory_is_spec : forall a, gfactory a = spec_factory a.
+Proof. exact gfactory_is_spec. Qed.
+Print Assumptions C10_factory_is_spec.
+
+(* falsy but valid: timeout=0 / False / 0.0 is the number 0, never "no timeout" (Example ex_factory) *)
+Theorem C10_factory_zero_is_not_none : forall a o z,
+  gfactory a = FacOk o -> int_of (fa_timeout a) = FOk z -> timeout o = Some z.
+Proof. exact factory_zero_is_not_none. Qed.
+Print Assumptions C10_factory_zero_is_not_none.
+
+Theorem C10_factory_none_stays_none : forall a o,
+  gfactory a = FacOk o ->
+  (timeout o = None <-> fa_timeout a = CNone) /\ (reissue o = None <-> fa_reissue a = CNone).
+Proof. exact factory_none_stays_none. Qed.
+Print Assumptions C10_factory_none_stays_none.
+
+Theorem C10_factory_raises_only_if : forall a,
+  gfactory a = FacRaise ->
+  exists v, In v [fa_max_age a; fa_reissue a; fa_timeout a] /\ v <> CNone /\ int_of v = FErr.
+Proof. exact factory_raises_iff. Qed.
+Print Assumptions C10_factory_raises_only_if.
+
+(* THE property over histories with the premise reduced to unforgeability (Example ex_unforged: satisfiable by a
+   chain that presents an altered cookie).  With canonical_check the base64 leniency no longer matters. *)
+Theorem C10_chain_refines_spec_canonical : forall O o, canonical_check = true -> rt_b64 O -> rt_ser O -> mac_len O ->
+  forall l last sv, unforged O o l -> inv O o last sv ->
+  Forall2 ok_at (run_chain O o last l) (spec_chain O o sv true l).
+Proof. exact chain_refines_spec_canonical. Qed.
+Print Assumptions C10_chain_refines_spec_canonical.
+
+(* an alteration of the cookie last set that leaves its decoding unchanged is refused with no premise about the MAC *)
+Theorem C10_altered_same_decoding_unforged : forall O o v c, rt_b64 O -> canonical_check = true ->
+  c <> cookie_of O o (store_sess v) -> unb64 O c = unb64 O (cookie_of O o (store_sess v)) ->
+  valid_signed O (key o) c = false.
+Proof. exact altered_same_decoding_unforged. Qed.
+Print Assumptions C10_altered_same_decoding_unforged.
+
+(* end to end: from the arguments given to SignedCookieSessionFactory to the store semantics of whole histories *)
+Theorem C10_factory_chain_refines_spec : forall O a o, canonical_check = true -> rt_b64 O -> rt_ser O -> mac_len O ->
+  gfactory a = FacOk o ->
+  key o = salted_key (fa_salt a) (fa_secret a) /\
+  (forall c, ser_loads O (b_ser (gen_signed_factory a)) c = loads O (key o) c) /\
+  (forall p, ser_dumps O (b_ser (gen_signed_factory a)) p = signed_dumps O (key o) p) /\
+  forall l, unforged O o l -> Forall2 ok_at (grun_chain O o None l) (spec_chain O o None true l).
+Proof. exact factory_chain_refines_spec. Qed.
+Print Assumptions C10_factory_chain_refines_spec.
